@@ -1,6 +1,8 @@
 """Subprocess used by C08's crash injection: performs one checkpoint save and dies (os._exit, no
 buffer flushing, no cleanup) at the chosen IO event.  argv: workdir crash_event partial_fraction mode
-mode = 'count' (just run and print the number of IO events) or 'crash'."""
+mode = 'count' (just run and print the number of IO events), 'crash' (the process dies at the event), 'powerloss', or
+'ioerror' (the event raises OSError(ENOSPC) - after a prefix of the chunk for a write - and the process lives on: the save
+must fail without touching the previous checkpoint)."""
 import builtins
 import io
 import os
@@ -18,9 +20,16 @@ events = []
 
 def hit(kind):
     events.append(kind)
-    if mode == "crash" and len(events) - 1 == crash_at:
+    if mode in ("crash", "ioerror") and len(events) - 1 == crash_at:
         return True
     return False
+
+
+def die_or_raise():
+    if mode == "ioerror":
+        import errno
+        raise OSError(errno.ENOSPC, "No space left on device (injected)")
+    os._exit(17)
 
 
 class PW:
@@ -80,12 +89,12 @@ class W:
             # a dying process loses whatever is still buffered in user space: emulate the worst case
             # by flushing only the part already handed to the OS
             self._f.flush()
-            os._exit(17)
+            die_or_raise()
         return self._f.write(b)
 
     def flush(self):
         if hit("flush"):
-            os._exit(17)
+            die_or_raise()
         return self._f.flush()
 
     def fileno(self):
@@ -156,7 +165,7 @@ def my_fsync(fd):
             pw.durable = pw.os_len
         return _fsync(fd)
     if armed[0] and hit("fsync"):
-        os._exit(17)
+        die_or_raise()
     return _fsync(fd)
 
 
@@ -182,6 +191,14 @@ s.save_state("ckpt.state")          # the OLD complete checkpoint (not instrumen
 s.sample()
 s.sample()
 armed[0] = True
-s.save_state("ckpt.state")          # the save that may die
+try:
+    s.save_state("ckpt.state")          # the save that may die / fail
+except OSError as e:
+    if mode != "ioerror":
+        raise
+    armed[0] = False
+    print("IOERROR propagated: %s" % e)
+    sys.stdout.flush()
+    os._exit(18)
 armed[0] = False
 print("EVENTS " + "|".join(events))
